@@ -28,4 +28,4 @@ print(' '.join(seen[:2]))")
   echo "$name $res (checks tried: $checks)"
 }
 export -f one
-ls -d seeded/* | while read d; do n=$(basename $d); [ -n "$only" ] && [[ "$n" != $only* ]] && continue; echo $d; done | xargs -P $par -I{} bash -c 'one {}'
+ls -d seeded/C* | while read d; do n=$(basename $d); [ -n "$only" ] && [[ "$n" != $only* ]] && continue; echo $d; done | xargs -P $par -I{} bash -c 'one {}'
